@@ -60,6 +60,16 @@ CLAIMED = {
             "raw/(TOTAL - CK-type raw) computed from an own parse of the data files; Coster-Kronig membership comes from the macro names.",
             "trusts the harness parser and name grammar; tolerance covers the single %.10E print of the derived tables",
             "DESIGN.md 2/C11"),
+    "C13": ("Hypothesis property-based testing over generated triclinic cells + structured enumeration over the 38 built-in crystals, with metamorphic and differential oracles",
+            "d-spacing symmetries, reciprocal-metric agreement, Bragg's law (or error), explicit structure-factor sum for 7 flag combinations, additivity, "
+            "Friedel, F(000), out-parameter variants and the error contract are checked on all built-ins and on Hypothesis-generated valid cells.",
+            "atomic factors come from the library's own Atomic_Factors (FF_Rayl/Fi/Fii decided by C02); built-in volumes compared at 1e-6 (%f literals)",
+            "DESIGN.md 2/C13"),
+    "C15": ("exhaustive enumeration of all catalogue entries x addressing modes (differential: by-name vs by-index vs list vs header macros) + mutate-copy-refetch histories",
+            "Every element, NIST compound, radionuclide and crystal is fetched in every documented way (incl. every index macro lexed from the headers "
+            "and out-of-range indices), compared field by field, checked for well-formedness, and copies are scribbled over and freed in all orders.",
+            "IUPAC symbol table embedded in the harness; macro-name normalisation rule derived from the tree (180/180 match)",
+            "DESIGN.md 2/C15"),
 }
 
 NOT_YET = "check not built yet in this round (see DESIGN.md section 2 for its design)"
